@@ -146,6 +146,20 @@ def make_tape(A, data):
     return A.lib.addr('vh_tape_gen'), st, t
 
 # ------------------------------------------------------------------------------------------ fork pool
+def cov_dump():
+    """VERIF_COV development aid: flush gcov counters of every loaded library copy (workers leave through os._exit)"""
+    if not os.environ.get('VERIF_COV'):
+        return
+    try:
+        for line in open('/proc/self/maps'):
+            if line.rstrip().endswith('libbee2v.so') and ' r-xp ' in line:
+                try:
+                    ctypes.CDLL(line.split()[-1]).vh_gcov_dump()
+                except Exception:
+                    pass
+    except OSError:
+        pass
+
 def _worker(fn, cases, idxs, wfd, errpath):
     try:
         fd = os.open(errpath, os.O_WRONLY | os.O_CREAT | os.O_TRUNC, 0o600)
@@ -161,6 +175,7 @@ def _worker(fn, cases, idxs, wfd, errpath):
             r = {'harness_error': ''.join(traceback.format_exception(type(e), e, e.__traceback__))[-3000:]}
         b = pickle.dumps(r, protocol=4)
         out.write(struct.pack('<qI', i, len(b)) + b)
+    cov_dump()
     os._exit(0)
 
 def pmap(fn, cases, nproc=None, case_timeout=120, on_result=None):
